@@ -53,8 +53,11 @@ Definition dec_call (c : call) : item :=
   | CTrue => Cut
   | _ => dec_base c
   end.
-Definition dec_conj (c : conj) : nitem := NItem 0 (cj_var c) None (dec_call (cj_call c)).
-Definition dec_alt (a : ialt) : alt := Alt (map dec_conj (a_conjs a)) None.
+(* reading back conjunctions and alternatives, for any reading [dc] of calls *)
+Definition gdec_conj (dc : call -> item) (c : conj) : nitem := NItem 0 (cj_var c) None (dc (cj_call c)).
+Definition gdec_alt (dc : call -> item) (a : ialt) : alt := Alt (map (gdec_conj dc) (a_conjs a)) None.
+Definition dec_conj : conj -> nitem := gdec_conj dec_call.
+Definition dec_alt : ialt -> alt := gdec_alt dec_call.
 Definition dec_meth (m : meth) : rule :=
   {| rname := m_name m; rtype := None; rrhs := Rhs 0 (map dec_alt (m_alts m)); rmemo := false |}.
 Definition dec_module : list rule := map dec_meth (i_meths M).
@@ -83,13 +86,14 @@ Definition default_text (xs : list string) : string :=
 Fixpoint nodup_s (l : list string) : bool :=
   match l with [] => true | x :: l' => negb (mem_str x l') && nodup_s l' end.
 Definition is_cut_call (c : call) : bool := match c with CTrue => true | _ => false end.
-Definition flat_conj (c : conj) : bool :=
-  flat_call (cj_call c) && negb (cj_notnone c) &&
+(* the shape of conjunctions and alternatives, for any admissible set [okc] of calls *)
+Definition gconj_ok (okc : call -> bool) (c : conj) : bool :=
+  okc (cj_call c) && negb (cj_notnone c) &&
   (if carries (cj_call c) then match cj_var c with Some x => negb (String.eqb x "cut") | None => false end
    else if is_cut_call (cj_call c) then match cj_var c with Some x => String.eqb x "cut" | None => false end
    else match cj_var c with None => true | Some _ => false end).
-Definition flat_alt (a : ialt) : bool :=
-  negb (a_guard a) && negb (a_locations a) && forallb flat_conj (a_conjs a) &&
+Definition galt_ok (okc : call -> bool) (a : ialt) : bool :=
+  negb (a_guard a) && negb (a_locations a) && forallb (gconj_ok okc) (a_conjs a) &&
   Bool.eqb (a_has_cut a) (existsb (fun c => is_cut_call (cj_call c)) (a_conjs a)) &&
   nodup_s (value_vars (a_conjs a)) && String.eqb (a_action a) (default_text (value_vars (a_conjs a))) &&
   (* the default value must be truthy: at least one value, and a single value is not a bare optional *)
@@ -98,6 +102,8 @@ Definition flat_alt (a : ialt) : bool :=
   | [c] => match cj_call c with CComma _ => false | _ => true end
   | _ => true
   end.
+Definition flat_conj : conj -> bool := gconj_ok flat_call.
+Definition flat_alt : ialt -> bool := galt_ok flat_call.
 Definition is_memo (d : deco) : bool := match d with DMemo => true | _ => false end.
 Definition flat_meth (m : meth) : bool :=
   negb (m_loop m) && negb (m_without_invalid m) && negb (m_locations m) && is_memo (m_deco m) && forallb flat_alt (m_alts m).
@@ -106,6 +112,18 @@ Definition no_kind_method : bool :=
   forallb (fun k => negb (is_meth k)) (("SOFT_KEYWORD" :: TOKS1) ++ TOKS2)%list.
 Definition flat_module : bool := forallb flat_meth (i_meths M) && no_kind_method.
 End Dec.
+
+Lemma truthy_default cs vs :
+  match filter (fun c => carries (cj_call c)) cs with
+  | [] => false | [c] => match cj_call c with CComma _ => false | _ => true end | _ => true end = true ->
+  Forall2 (fun c w => truthy w = true \/ exists c0, cj_call c = CComma c0) (filter (fun c => carries (cj_call c)) cs) vs ->
+  truthy (match vs with [v] => v | _ => VList vs end) = true.
+Proof.
+  intros Hne Hall. destruct (filter (fun c => carries (cj_call c)) cs) as [|c [|c2 l]]; [discriminate| |].
+  - inversion Hall as [|? w ? vs' Hw Hr]; subst. inversion Hr; subst. destruct Hw as [Hw|[c0 Hc0]]; [exact Hw|rewrite Hc0 in Hne; discriminate].
+  - inversion Hall as [|? w ? vs' Hw Hr]; subst. inversion Hr; subst. reflexivity.
+Qed.
+
 
 Section Sem.
 Variable K : kinds.
@@ -118,7 +136,8 @@ Variable aevalP : alt -> list value -> list (string * value) -> nat -> nat -> op
 Variable item_name : alt -> nat -> option string.
 Variable forced_msg : item -> string.
 
-Notation rs := (dec_module M).
+Variable rs : list rule.                       (* the grammar the module is read back as *)
+Hypothesis Hrs : rs = dec_module M.
 Notation kw := (i_keywords M).
 Notation soft := (i_soft_keywords M).
 Notation pitem := (peg_item K rs toks kw soft aevalP item_name forced_msg).
@@ -179,12 +198,12 @@ Qed.
 
 Lemma find_rule_dec n m : find_meth M n = Some m -> find_rule rs n = Some (dec_meth M m).
 Proof.
-  unfold find_meth, dec_module. induction (i_meths M) as [|m0 l IH]; cbn [find map find_rule]; [discriminate|].
+  rewrite Hrs. unfold find_meth, dec_module. induction (i_meths M) as [|m0 l IH]; cbn [find map find_rule]; [discriminate|].
   cbn [rname dec_meth]. destruct (String.eqb (m_name m0) n); [intros [= <-]; reflexivity|exact IH].
 Qed.
 Lemma find_rule_dec_none n : find_meth M n = None -> find_rule rs n = None.
 Proof.
-  unfold find_meth, dec_module. induction (i_meths M) as [|m0 l IH]; cbn [find map find_rule]; [reflexivity|].
+  rewrite Hrs. unfold find_meth, dec_module. induction (i_meths M) as [|m0 l IH]; cbn [find map find_rule]; [reflexivity|].
   cbn [rname dec_meth]. destruct (String.eqb (m_name m0) n); [discriminate|exact IH].
 Qed.
 Lemma find_meth_in n m : find_meth M n = Some m -> In m (i_meths M).
@@ -294,70 +313,77 @@ Proof.
   - destruct p0; reflexivity.
 Qed.
 
+(* ---- generic part: any admissible set of calls [okc] with its reading [dc] ---- *)
+Section Generic.
+Variable okc : call -> bool.
+Variable dc : call -> item.
+Hypothesis Hcs : forall c st w st', okc c = true -> rcall rec c st = (Ok w, st') ->
+  exists res, pitem (dc c) (pos st) res /\
+    ((truthy w = true /\ res = PSucc (bound_of c w) (pos st')) \/ (truthy w = false /\ res = PFail)).
+Hypothesis Hcar0 : forall c, okc c = true -> carries c = negb (is_lookahead (dc c) || is_cut (dc c)).
+Hypothesis Hcutc : forall c, okc c = true -> is_cut (dc c) = is_cut_call c.
+
 Definition env_cut (e : env) : bool := match env_get e "cut" with Some c => truthy c | None => false end.
 (* the bindings a conjunction makes, in order *)
 Definition binding (c : conj) (w : value) : list (string * value) :=
   match cj_var c with Some x => [(x, bound_of (cj_call c) w)] | None => [] end.
 
 (* the conjunction of one alternative *)
-Lemma conjs_agree : forall cs e st v e' st', forallb (flat_conj M) cs = true -> rconjs rec cs e st = (Ok v, e', st') ->
+Lemma gconjs_agree : forall cs e st v e' st', forallb (gconj_ok okc) cs = true -> rconjs rec cs e st = (Ok v, e', st') ->
   forall a k vals envP cut0, env_cut e = cut0 ->
   exists bs cutf, e' = (rev bs ++ e)%list /\ env_cut e' = cutf /\
     (cutf = true -> cut0 = true \/ existsb (fun c => is_cut_call (cj_call c)) cs = true) /\
-    (truthy v = true -> exists vs envP', pseq a k (map (dec_conj M) cs) (pos st) vals envP cut0 (SSucc (vals ++ vs) envP' (pos st')) /\
+    (truthy v = true -> exists vs envP', pseq a k (map (gdec_conj dc) cs) (pos st) vals envP cut0 (SSucc (vals ++ vs) envP' (pos st')) /\
                         filter (fun b => negb (String.eqb (fst b) "cut")) bs = combine (value_vars cs) vs /\
                         List.length (value_vars cs) = List.length vs /\
                         List.length vs = List.length (filter (fun c => carries (cj_call c)) cs) /\
                         Forall2 (fun c w => truthy w = true \/ exists c0, cj_call c = CComma c0)
                                 (filter (fun c => carries (cj_call c)) cs) vs) /\
-    (truthy v = false -> pseq a k (map (dec_conj M) cs) (pos st) vals envP cut0 (if cutf then SCutFail else SFail)).
+    (truthy v = false -> pseq a k (map (gdec_conj dc) cs) (pos st) vals envP cut0 (if cutf then SCutFail else SFail)).
 Proof.
   induction cs as [|c cs IH]; intros e st v e' st' Hf H a k vals envP cut0 Hc0.
   - cbn [run_conjs] in H. injection H as <- <- <-. exists [], cut0. split; [reflexivity|]. split; [exact Hc0|].
     split; [intros Hc; left; exact Hc|]. split; [|discriminate]. intros _. exists [], envP. cbn [map]. rewrite app_nil_r.
     split; [apply PQ_nil|]. split; [reflexivity|]. split; [reflexivity|]. split; [reflexivity|constructor].
-  - cbn [forallb] in Hf. apply andb_prop in Hf as [Hc Hcs]. unfold flat_conj in Hc. apply andb_prop in Hc as [Hc Hv].
+  - cbn [forallb] in Hf. apply andb_prop in Hf as [Hc Hcs1]. unfold gconj_ok in Hc. apply andb_prop in Hc as [Hc Hv].
     apply andb_prop in Hc as [Hcall Hnn]. apply negb_true_iff in Hnn. cbn [run_conjs] in H.
     destruct (rcall rec (cj_call c) st) as [[w| |] st1] eqn:Ec; try discriminate.
-    destruct (call_sem (cj_call c) st w st1 Hcall Ec) as (res & Hp & Ha).
+    destruct (Hcs (cj_call c) st w st1 Hcall Ec) as (res & Hp & Ha).
     change (match cj_call c, w with CComma _, VTuple [w0] => w0 | _, _ => w end) with (bound_of (cj_call c) w) in H.
     rewrite Hnn in H. cbn [map].
     set (e1 := match cj_var c with Some x => (x, bound_of (cj_call c) w) :: e | None => e end) in *.
     assert (He1 : e1 = (rev (binding c w) ++ e)%list) by (unfold e1, binding; destruct (cj_var c); reflexivity).
-    set (cut1 := cut0 || is_cut (dec_call M (cj_call c))).
+    set (cut1 := cut0 || is_cut (dc (cj_call c))).
     assert (Hcut1 : env_cut e1 = cut1).
     { unfold e1, cut1. destruct (carries (cj_call c)) eqn:Ecar.
-      - assert (is_cut (dec_call M (cj_call c)) = false) as ->.
-        { pose proof (carries_dec (cj_call c) Hcall) as Hcar. rewrite Ecar in Hcar. symmetry in Hcar. apply negb_true_iff in Hcar.
+      - assert (is_cut (dc (cj_call c)) = false) as ->.
+        { pose proof (Hcar0 (cj_call c) Hcall) as Hcar. rewrite Ecar in Hcar. symmetry in Hcar. apply negb_true_iff in Hcar.
           apply orb_false_iff in Hcar. tauto. }
         rewrite orb_false_r. destruct (cj_var c) as [x|]; [|exact Hc0]. apply negb_true_iff in Hv. unfold env_cut. cbn [env_get].
         rewrite String.eqb_sym in Hv. rewrite Hv. exact Hc0.
-      - destruct (cj_call c) eqn:Ecc; try discriminate Ecar.
+      - rewrite (Hcutc (cj_call c) Hcall). destruct (cj_call c) eqn:Ecc; try discriminate Ecar.
         + (* lookahead: nothing bound *) cbn [is_cut_call] in Hv. destruct (cj_var c); [discriminate|].
-          cbn [dec_call]. destruct positive; cbn [is_cut]; rewrite orb_false_r; exact Hc0.
+          cbn [is_cut_call]. rewrite orb_false_r. exact Hc0.
         + (* cut *) cbn [is_cut_call] in Hv. destruct (cj_var c) as [x|]; [|discriminate]. apply String.eqb_eq in Hv. subst x.
-          cbn [dec_call is_cut]. rewrite orb_true_r. cbn [run_call] in Ec. injection Ec as <- <-. reflexivity. }
+          cbn [is_cut_call]. rewrite orb_true_r. cbn [run_call] in Ec. injection Ec as <- <-. reflexivity. }
     destruct (truthy w) eqn:Tw.
     + destruct Ha as [[_ ->]|[Hc1 _]]; [|congruence].
-      destruct (IH _ _ _ _ _ Hcs H a (S k)
-                  (if is_lookahead (dec_call M (cj_call c)) || is_cut (dec_call M (cj_call c)) then vals else (vals ++ [bound_of (cj_call c) w])%list)
-                  (if is_lookahead (dec_call M (cj_call c)) then envP else bind_name item_name a k (bound_of (cj_call c) w) envP)
+      destruct (IH _ _ _ _ _ Hcs1 H a (S k)
+                  (if is_lookahead (dc (cj_call c)) || is_cut (dc (cj_call c)) then vals else (vals ++ [bound_of (cj_call c) w])%list)
+                  (if is_lookahead (dc (cj_call c)) then envP else bind_name item_name a k (bound_of (cj_call c) w) envP)
                   cut1 Hcut1) as (bs & cutf & He & Hcf & Hbs & IH1 & IH2).
       exists (binding c w ++ bs)%list, cutf. split; [rewrite He, He1, rev_app_distr, <- app_assoc; reflexivity|]. split; [exact Hcf|].
       split; [|split].
       * intros Hc. destruct (Hbs Hc) as [H1|H1]; [|right; cbn [existsb]; rewrite H1; apply orb_true_r].
         unfold cut1 in H1. apply orb_prop in H1 as [H1|H1]; [left; exact H1|right]. cbn [existsb].
-        destruct (cj_call c) as [n0|a1|c1|p1 h1 t1 c1| |c1 m1]; cbn [dec_call dec_base is_cut] in H1; try discriminate H1; try reflexivity.
-        -- destruct (is_meth M n0); [discriminate|]. destruct (prim_kind n0); discriminate.
-        -- destruct (is_kind2 (strip_quotes a1)); discriminate.
-        -- destruct p1; discriminate.
+        rewrite (Hcutc (cj_call c) Hcall) in H1. rewrite H1. reflexivity.
       * intros Tv. destruct (IH1 Tv) as (vs & envP' & Hseq & Hf2 & Hlv & Hl & Hall).
         destruct (carries (cj_call c)) eqn:Ecar.
-        -- assert (Hnl : is_lookahead (dec_call M (cj_call c)) || is_cut (dec_call M (cj_call c)) = false).
-           { pose proof (carries_dec (cj_call c) Hcall) as Hcar. rewrite Ecar in Hcar. symmetry in Hcar. apply negb_true_iff in Hcar. exact Hcar. }
+        -- assert (Hnl : is_lookahead (dc (cj_call c)) || is_cut (dc (cj_call c)) = false).
+           { pose proof (Hcar0 (cj_call c) Hcall) as Hcar. rewrite Ecar in Hcar. symmetry in Hcar. apply negb_true_iff in Hcar. exact Hcar. }
            rewrite Hnl in Hseq. destruct (cj_var c) as [x|] eqn:Ex; [|discriminate].
            exists (bound_of (cj_call c) w :: vs), envP'. split; [|split; [|split; [|split]]].
-           ++ eapply PQ_step; [exact Hp|]. cbn [ni_item dec_conj]. rewrite Hnl. apply orb_false_iff in Hnl as [Hl0 Hc2].
+           ++ eapply PQ_step; [exact Hp|]. cbn [ni_item gdec_conj]. rewrite Hnl. apply orb_false_iff in Hnl as [Hl0 Hc2].
               unfold cut1 in Hseq. rewrite Hl0 in *. rewrite <- app_assoc in Hseq. exact Hseq.
            ++ rewrite filter_app. unfold binding. rewrite Ex. cbn [filter fst]. apply negb_true_iff in Hv. rewrite Hv. cbn [negb app].
               unfold value_vars. cbn [flat_map]. rewrite Ecar, Ex. cbn [app combine]. fold (value_vars cs). rewrite Hf2. reflexivity.
@@ -365,10 +391,10 @@ Proof.
            ++ cbn [filter]. rewrite Ecar. cbn. rewrite Hl. reflexivity.
            ++ cbn [filter]. rewrite Ecar. constructor; [|exact Hall].
               destruct (cj_call c) eqn:Ecc; try (left; exact Tw); try discriminate Ecar. right. eexists; reflexivity.
-        -- assert (Hnl : is_lookahead (dec_call M (cj_call c)) || is_cut (dec_call M (cj_call c)) = true).
-           { pose proof (carries_dec (cj_call c) Hcall) as Hcar. rewrite Ecar in Hcar. symmetry in Hcar. apply negb_false_iff in Hcar. exact Hcar. }
+        -- assert (Hnl : is_lookahead (dc (cj_call c)) || is_cut (dc (cj_call c)) = true).
+           { pose proof (Hcar0 (cj_call c) Hcall) as Hcar. rewrite Ecar in Hcar. symmetry in Hcar. apply negb_false_iff in Hcar. exact Hcar. }
            rewrite Hnl in Hseq. exists vs, envP'. split; [|split; [|split; [|split]]].
-           ++ eapply PQ_step; [exact Hp|]. cbn [ni_item dec_conj]. rewrite Hnl. fold cut1. exact Hseq.
+           ++ eapply PQ_step; [exact Hp|]. cbn [ni_item gdec_conj]. rewrite Hnl. fold cut1. exact Hseq.
            ++ rewrite filter_app. unfold value_vars. cbn [flat_map]. rewrite Ecar. cbn [app]. fold (value_vars cs). rewrite Hf2.
               unfold binding. destruct (cj_call c) eqn:Ecc; try discriminate Ecar; cbn [is_cut_call] in Hv.
               ** destruct (cj_var c); [discriminate|reflexivity].
@@ -376,23 +402,43 @@ Proof.
            ++ unfold value_vars. cbn [flat_map]. rewrite Ecar. cbn [app]. exact Hlv.
            ++ cbn [filter]. rewrite Ecar. exact Hl.
            ++ cbn [filter]. rewrite Ecar. exact Hall.
-      * intros Tv. eapply PQ_step; [exact Hp|]. cbn [ni_item dec_conj]. fold cut1. exact (IH2 Tv).
+      * intros Tv. eapply PQ_step; [exact Hp|]. cbn [ni_item gdec_conj]. fold cut1. exact (IH2 Tv).
     + injection H as <- <- <-. exists (binding c w), cut1. split; [exact He1|]. split; [exact Hcut1|]. split; [|split; [discriminate|]].
       * intros Hc. unfold cut1 in Hc. apply orb_prop in Hc as [H1|H1]; [left; exact H1|right]. cbn [existsb].
-        destruct (cj_call c) as [n0|a1|c1|p1 h1 t1 c1| |c1 m1]; cbn [dec_call dec_base is_cut] in H1; try discriminate H1; try reflexivity.
-        -- destruct (is_meth M n0); [discriminate|]. destruct (prim_kind n0); discriminate.
-        -- destruct (is_kind2 (strip_quotes a1)); discriminate.
-        -- destruct p1; discriminate.
+        rewrite (Hcutc (cj_call c) Hcall) in H1. rewrite H1. reflexivity.
       * intros _. destruct Ha as [[Hc1 _]|[_ ->]]; [congruence|].
         (* the failing item is not a cut, so the flag is the one before it *)
-        assert (Hnc : is_cut (dec_call M (cj_call c)) = false).
-        { destruct (cj_call c) as [n0|a1|c1|p1 h1 t1 c1| |c1 m1] eqn:Ecc; cbn [dec_call dec_base is_cut]; try reflexivity.
-          - destruct (is_meth M n0); [reflexivity|]. destruct (prim_kind n0); reflexivity.
-          - destruct (is_kind2 (strip_quotes a1)); reflexivity.
-          - destruct p1; reflexivity.
-          - cbn [run_call] in Ec. injection Ec as <- <-. discriminate Tw. }
+        assert (Hnc : is_cut (dc (cj_call c)) = false).
+        { rewrite (Hcutc (cj_call c) Hcall). destruct (cj_call c) eqn:Ecc; try reflexivity.
+          cbn [run_call] in Ec. injection Ec as <- <-. discriminate Tw. }
         unfold cut1. rewrite Hnc, orb_false_r.
-        apply (PQ_fail K rs toks kw soft aevalP item_name forced_msg a k (dec_conj M c) (map (dec_conj M) cs) (pos st) vals envP cut0). exact Hp.
+        apply (PQ_fail K rs toks kw soft aevalP item_name forced_msg a k (gdec_conj dc c) (map (gdec_conj dc) cs) (pos st) vals envP cut0). exact Hp.
+Qed.
+
+(* ... and when a conjunction raises SyntaxError (a forced item failed), the sequence errs *)
+Hypothesis HcsR : forall c st ea t st', okc c = true -> rcall rec c st = (Raise (XSyntaxError ea t), st') ->
+  exists m q, pitem (dc c) (pos st) (PErr m q).
+
+Lemma gconjs_raises : forall cs e st ea t e' st', forallb (gconj_ok okc) cs = true ->
+  rconjs rec cs e st = (Raise (XSyntaxError ea t), e', st') ->
+  forall a k vals envP cut0, exists m q, pseq a k (map (gdec_conj dc) cs) (pos st) vals envP cut0 (SErr m q).
+Proof.
+  induction cs as [|c cs IH]; intros e st ea t e' st' Hf H a k vals envP cut0.
+  - cbn [run_conjs] in H. discriminate H.
+  - cbn [forallb] in Hf. apply andb_prop in Hf as [Hc Hcs1]. unfold gconj_ok in Hc. apply andb_prop in Hc as [Hc Hv].
+    apply andb_prop in Hc as [Hcall Hnn]. apply negb_true_iff in Hnn. cbn [run_conjs] in H. cbn [map].
+    destruct (rcall rec (cj_call c) st) as [[w|x| ] st1] eqn:Ec.
+    + destruct (Hcs (cj_call c) st w st1 Hcall Ec) as (res & Hp & Ha). rewrite Hnn in H.
+      destruct (truthy w) eqn:Tw; [|discriminate H].
+      destruct Ha as [[_ ->]|[Hc1 _]]; [|congruence].
+      destruct (IH _ _ _ _ _ _ Hcs1 H a (S k)
+                  (if is_lookahead (dc (cj_call c)) || is_cut (dc (cj_call c)) then vals else (vals ++ [bound_of (cj_call c) w])%list)
+                  (if is_lookahead (dc (cj_call c)) then envP else bind_name item_name a k (bound_of (cj_call c) w) envP)
+                  (cut0 || is_cut (dc (cj_call c)))) as (m & q & Hs).
+      exists m, q. eapply PQ_step; [exact Hp|]. cbn [ni_item gdec_conj]. exact Hs.
+    + injection H as -> <- <-. destruct (HcsR _ _ _ _ _ Hcall Ec) as (m & q & Hp). exists m, q.
+      apply (PQ_err K rs toks kw soft aevalP item_name forced_msg a k (gdec_conj dc c) (map (gdec_conj dc) cs) (pos st) vals envP cut0 m q). exact Hp.
+    + discriminate H.
 Qed.
 
 (* looking up a name other than "cut" ignores the bindings of "cut" *)
@@ -423,47 +469,36 @@ Proof.
   - exact (IH vs ((x, v) :: e) Hn Hl).
 Qed.
 
-Lemma value_vars_not_cut cs : forallb (flat_conj M) cs = true -> ~ In "cut" (value_vars cs).
+Lemma value_vars_not_cut cs : forallb (gconj_ok okc) cs = true -> ~ In "cut" (value_vars cs).
 Proof.
-  induction cs as [|c cs IH]; intros Hf; [intros []|]. cbn [forallb] in Hf. apply andb_prop in Hf as [Hc Hcs].
-  unfold value_vars. cbn [flat_map]. intros Hin. apply in_app_or in Hin as [Hin|Hin]; [|exact (IH Hcs Hin)].
-  unfold flat_conj in Hc. apply andb_prop in Hc as [_ Hv]. destruct (carries (cj_call c)); [|destruct Hin].
+  induction cs as [|c cs IH]; intros Hf; [intros []|]. cbn [forallb] in Hf. apply andb_prop in Hf as [Hc Hcs2].
+  unfold value_vars. cbn [flat_map]. intros Hin. apply in_app_or in Hin as [Hin|Hin]; [|exact (IH Hcs2 Hin)].
+  unfold gconj_ok in Hc. apply andb_prop in Hc as [_ Hv]. destruct (carries (cj_call c)); [|destruct Hin].
   destruct (cj_var c) as [x|]; [|destruct Hin]. destruct Hin as [Hx|[]]. subst x. discriminate Hv.
 Qed.
 
-Lemma truthy_default cs vs :
-  match filter (fun c => carries (cj_call c)) cs with
-  | [] => false | [c] => match cj_call c with CComma _ => false | _ => true end | _ => true end = true ->
-  Forall2 (fun c w => truthy w = true \/ exists c0, cj_call c = CComma c0) (filter (fun c => carries (cj_call c)) cs) vs ->
-  truthy (match vs with [v] => v | _ => VList vs end) = true.
-Proof.
-  intros Hne Hall. destruct (filter (fun c => carries (cj_call c)) cs) as [|c [|c2 l]]; [discriminate| |].
-  - inversion Hall as [|? w ? vs' Hw Hr]; subst. inversion Hr; subst. destruct Hw as [Hw|[c0 Hc0]]; [exact Hw|rewrite Hc0 in Hne; discriminate].
-  - inversion Hall as [|? w ? vs' Hw Hr]; subst. inversion Hr; subst. reflexivity.
-Qed.
-
 (* the alternatives of one method *)
-Lemma alts_agree m mark prev : m_without_invalid m = false ->
-  forall alts e0 st v st', forallb (flat_alt M) alts = true -> pos st = mark -> env_cut e0 = false ->
+Lemma galts_agree m mark prev : m_without_invalid m = false ->
+  forall alts e0 st v st', forallb (galt_ok okc) alts = true -> pos st = mark -> env_cut e0 = false ->
   ralts rec m mark None prev alts e0 st = (Ok v, st') ->
-  exists res, palts (map (dec_alt M) alts) mark res /\
+  exists res, palts (map (gdec_alt dc) alts) mark res /\
               ((truthy v = true /\ res = PSucc v (pos st')) \/ (v = VNone /\ res = PFail /\ pos st' = mark)).
 Proof.
   intros Hwi. induction alts as [|a alts IH]; intros e0 st v st' Hf Hpos He0 H.
   - cbn [run_alts] in H. rewrite Hwi in H. injection H as <- <-. exists PFail. split; [apply PA_nil|]. right. auto.
-  - cbn [forallb] in Hf. apply andb_prop in Hf as [Ha Hal]. unfold flat_alt in Ha.
+  - cbn [forallb] in Hf. apply andb_prop in Hf as [Ha Hal]. unfold galt_ok in Ha.
     apply andb_prop in Ha as [Ha Hne]. apply andb_prop in Ha as [Ha Hact]. apply andb_prop in Ha as [Ha Hnd].
-    apply andb_prop in Ha as [Ha Hhc]. apply andb_prop in Ha as [Ha Hcs]. apply andb_prop in Ha as [Hg Hloc].
+    apply andb_prop in Ha as [Ha Hhc]. apply andb_prop in Ha as [Ha Hcs0]. apply andb_prop in Ha as [Hg Hloc].
     apply negb_true_iff in Hg. apply negb_true_iff in Hloc. apply String.eqb_eq in Hact. apply Bool.eqb_prop in Hhc.
     cbn [run_alts] in H. rewrite Hg in H. cbn [andb] in H.
     destruct (rconjs rec (a_conjs a) e0 st) as [[[v1| |] e] st1] eqn:Ec; try discriminate.
-    destruct (conjs_agree _ _ _ _ _ _ Hcs Ec (dec_alt M a) 0 [] [] false He0) as (bs & cutf & He & Hcf & Hbs & C1 & C2). cbn [map].
+    destruct (gconjs_agree _ _ _ _ _ _ Hcs0 Ec (gdec_alt dc a) 0 [] [] false He0) as (bs & cutf & He & Hcf & Hbs & C1 & C2). cbn [map].
     destruct (truthy v1) eqn:T1.
     + destruct (C1 eq_refl) as (vs & envP' & Hseq & Hfil & Hlv & Hl & Hall). rewrite Hloc in H. cbn [andb] in H. rewrite Hact in H.
       assert (Hev : aeval (default_text (value_vars (a_conjs a))) e = Some (match vs with [w] => w | _ => VList vs end)).
       { apply Haeval; [exact Hnd|]. rewrite He.
         pose proof (env_get_bound (value_vars (a_conjs a)) vs e0 Hnd Hlv) as HB. rewrite <- Hfil in HB.
-        assert (Hnc := value_vars_not_cut _ Hcs).
+        assert (Hnc := value_vars_not_cut _ Hcs0).
         clear -HB Hnc. induction HB as [|x w xs ws Hx _ IHB]; [constructor|]. constructor.
         - rewrite env_get_skip_cut; [exact Hx|]. intros ->. apply Hnc. left. reflexivity.
         - apply IHB. intros Hin. apply Hnc. right. exact Hin. }
@@ -480,6 +515,45 @@ Proof.
         destruct (IH e (with_pos st1 mark) v st' Hal eq_refl Hcf H) as (res & Hp & Hr).
         exists res. split; [|exact Hr]. rewrite <- Hpos in *. eapply PA_next; [exact C2|exact Hp].
 Qed.
+Lemma galts_raises m mark prev : m_without_invalid m = false ->
+  forall alts e0 st ea t st', forallb (galt_ok okc) alts = true -> pos st = mark -> env_cut e0 = false ->
+  ralts rec m mark None prev alts e0 st = (Raise (XSyntaxError ea t), st') ->
+  exists msg q, palts (map (gdec_alt dc) alts) mark (PErr msg q).
+Proof.
+  intros Hwi. induction alts as [|a alts IH]; intros e0 st ea t st' Hf Hpos He0 H.
+  - cbn [run_alts] in H. discriminate H.
+  - cbn [forallb] in Hf. apply andb_prop in Hf as [Ha Hal]. unfold galt_ok in Ha.
+    apply andb_prop in Ha as [Ha Hne]. apply andb_prop in Ha as [Ha Hact]. apply andb_prop in Ha as [Ha Hnd].
+    apply andb_prop in Ha as [Ha Hhc]. apply andb_prop in Ha as [Ha Hcs0]. apply andb_prop in Ha as [Hg Hloc].
+    apply negb_true_iff in Hg. apply negb_true_iff in Hloc. apply Bool.eqb_prop in Hhc.
+    cbn [run_alts] in H. rewrite Hg in H. cbn [andb] in H. cbn [map].
+    destruct (rconjs rec (a_conjs a) e0 st) as [[[v1|x| ] e] st1] eqn:Ec.
+    + destruct (gconjs_agree _ _ _ _ _ _ Hcs0 Ec (gdec_alt dc a) 0 [] [] false He0) as (bs & cutf & He & Hcf & Hbs & C1 & C2).
+      destruct (truthy v1) eqn:T1.
+      * rewrite Hloc in H. cbn [andb] in H. destruct (aeval (a_action a) e); discriminate H.
+      * specialize (C2 eq_refl). destruct cutf.
+        -- assert (Hhas : a_has_cut a = true) by (rewrite Hhc; destruct (Hbs eq_refl) as [X|X]; [discriminate X|exact X]).
+           rewrite Hhas in H. cbn [andb] in H. unfold env_cut in Hcf. rewrite Hcf in H. discriminate H.
+        -- unfold env_cut in Hcf. rewrite Hcf in H. rewrite andb_false_r in H.
+           destruct (IH e (with_pos st1 mark) ea t st' Hal eq_refl Hcf H) as (msg & q & Hp).
+           exists msg, q. rewrite <- Hpos in *. eapply PA_next; [exact C2|exact Hp].
+    + injection H as -> <-. destruct (gconjs_raises _ _ _ _ _ _ _ Hcs0 Ec (gdec_alt dc a) 0 [] [] false) as (msg & q & Hs).
+      exists msg, q. rewrite <- Hpos. eapply PA_err. exact Hs.
+    + discriminate H.
+Qed.
+End Generic.
+
+Lemma cut_dec c : flat_call M c = true -> is_cut (dec_call M c) = is_cut_call c.
+Proof.
+  destruct c as [n|a|c'|p0 hd tl c'| |c' msg]; intros Hf; cbn [dec_call is_cut_call dec_base is_cut]; try reflexivity.
+  - destruct (is_meth M n); [reflexivity|]. destruct (prim_kind n); reflexivity.
+  - destruct (is_kind2 (strip_quotes a)); reflexivity.
+  - destruct p0; reflexivity.
+Qed.
+
+(* the flat instance *)
+Definition conjs_agree := gconjs_agree (flat_call M) (dec_call M) call_sem carries_dec cut_dec.
+Definition alts_agree := galts_agree (flat_call M) (dec_call M) call_sem carries_dec cut_dec.
 End Step.
 
 (* ---------- the theorem ---------- *)
@@ -501,3 +575,6 @@ Proof.
   - unfold agrees. rewrite Hp. destruct Hr as [[A B]|[A [B C]]]; [left; auto|right; auto].
 Qed.
 End Sem.
+
+Definition flat_run_agrees' K toks M aeval ex td aevalP item_name forced_msg :=
+  flat_run_agrees K toks M aeval ex td aevalP item_name forced_msg (dec_module M) eq_refl.
